@@ -160,6 +160,12 @@ func init() {
 				}
 			}
 		}
+		c.Phase("huge-items") // items around 2^24 bytes (the length needs the fourth byte of OP_PUSHDATA4's prefix)
+		for i, l := range []int{1<<24 - 1, 1 << 24, 1<<24 + 1} {
+			if c.Case(uint64(i)) {
+				items(c, &c13Items{Lens: []int{l}, DataSeed: c.Rand(uint64(i)).Uint64()})
+			}
+		}
 		c.Phase("caller-owned-results") // a caller extends / overwrites what an encoder returned; later encodings must not change
 		for n := uint64(0); n < 400; n++ {
 			if !c.Case(n) {
